@@ -96,3 +96,14 @@ def Cert.structural (g : Grammar) (t : Table) (start aug : Nat) : Bool :=
   (t.forStates fun _ st => st.forGotos fun j s' => s' != start && t.targetOk g st (g.nterms + j) s')
 
 end Rustemo
+
+namespace Rustemo
+
+/-- STOP is never shifted (it only ever appears as a lookahead) -/
+def Cert.noShiftStop (t : Table) : Bool :=
+  t.forStates fun _ st => (st.actions.getD 0 []).all fun a =>
+    match a with
+    | .shift _ => false
+    | _ => true
+
+end Rustemo
